@@ -22,7 +22,7 @@ var wideUnit = map[string]string{"arr": "1,", "objs": `{"a":1},`, "members": `"k
 var wideTail = map[string]map[string]string{
 	"arr":     {"ok": "1]", "dcomma": ",]", "nocomma": "1 1]", "open": "1"},
 	"objs":    {"ok": "{}]", "dcomma": ",]", "nocomma": "{} {}]", "open": "{}"},
-	"members": {"ok": `"z":1}`, "dcomma": ",}", "nocomma": `"y":1 "z":1}`, "open": `"z":1`},
+	"members": {"ok": `"z":1}`, "dcomma": ",}", "nocomma": `"y":1 "z":1}`, "open": `"z":1`, "geo": `"type":"Feature"}`, "gltf": `"asset":{"version":"2.0"}}`},
 }
 
 func wideMain(args []string) int {
